@@ -287,8 +287,22 @@ ALIAS_CASES = [
 ]
 
 
+MERGE_VALUES = ["b", ["b", "d"], ["b"], [], ["b", "d", "e"]]
+
+
+def merge_cases():
+    """every combination of value shapes for two (three) keys that are written as the same key"""
+    out = []
+    for al in ("", "|all"):
+        for v1 in MERGE_VALUES:
+            for v2 in MERGE_VALUES:
+                out.append({"sel": {"f|re|s" + al: v1, "f|re|dotall" + al: v2}, "condition": "sel"})
+                out.append({"sel": {"g": 1, "f|re|i" + al: v1, "f|re|ignorecase" + al: v2, "f|re|ignorecase|all": "z"}, "condition": "sel"})
+    return out
+
+
 def gen_det(tier, rng):
-    out = [{"det": d} for d in ALIAS_CASES]
+    out = [{"det": d} for d in ALIAS_CASES + merge_cases()]
     vals = CORE + (HOSTILE if tier != "quick" else HOSTILE[:14])
     for ch in CHAINS:
         for v in vals:
@@ -461,6 +475,11 @@ def gen_hist(tier, rng):
     for d in HIST_DETS:
         for t in TRS:
             out.append({"det": d, "tr": t, "vars": {"x": ["v1", "v*2"], "v": "w"}})
+    for al in ("", "|all", "|contains|all", "|neq"):
+        for v1 in MERGE_VALUES:
+            for v2 in MERGE_VALUES:
+                out.append({"det": {"sel": {"f" + al: v1, "g" + al: v2, "c|all": "q"}, "condition": "sel"}, "tr": TRS[0], "vars": {}})
+                out.append({"det": {"sel": {"f" + al: v1, "g" + al: v2}, "condition": "sel"}, "tr": TRS[0], "vars": {}})
     n = 150 if tier == "quick" else 5000
     tries = 0
     while n > 0 and tries < 100000:
